@@ -112,7 +112,8 @@ pub struct HistGen {
 }
 
 const DIM_NAMES: &[&str] = &["D", "S", "T", "Dé", "Q"];
-const ATTR_NAMES: &[&str] = &["A", "B", "C", "E", "F", "é", "G1"];
+// (two of them are also dimension names: a dimension and an attribute may share a name)
+const ATTR_NAMES: &[&str] = &["A", "B", "C", "E", "F", "é", "G1", "D", "S"];
 
 fn h(s: &str) -> String {
     hex(s.as_bytes())
@@ -450,6 +451,16 @@ impl HistGen {
             }
             clauses.push(s);
         }
+        // sometimes a clause twice, or an attribute twice inside a clause (idempotence: the policy means the same)
+        if self.rng.chance(1, 12) {
+            let c = clauses[self.rng.below(clauses.len())].clone();
+            if self.rng.chance(1, 2) {
+                clauses.push(c);
+            } else {
+                let k = self.rng.below(clauses.len());
+                clauses[k] = format!("{} && {}", clauses[k], c);
+            }
+        }
         // sometimes factorised: (c1 || c2) && t
         if clauses.len() >= 2 && self.rng.chance(1, 4) {
             let t = clauses.pop().unwrap();
@@ -749,6 +760,12 @@ impl HistGen {
                     14 => self.op_pke(),
                     15 => self.op_hdr(),
                     _ => self.op_relevel(),
+                }
+                // the same operation once more, as is: update twice, rekey / prune twice in a row, the same refresh or
+                // store / load again, the same edit again (which then fails, or is idempotent)
+                if self.lines.len() == before + 1 && matches!(k, 0 | 1 | 2 | 3 | 5 | 8 | 10) && self.rng.chance(1, 12) {
+                    let again = self.lines[before].clone();
+                    self.emit(again);
                 }
                 if self.p.matrix_often && self.lines.len() > before && matches!(k, 5 | 6 | 7) {
                     self.emit("matrix".into());
